@@ -1,6 +1,7 @@
 import CM.Proofs.Filter
 import CM.Proofs.FilterSites
 import CM.Proofs.FilterRender
+import CM.Proofs.FilterRenderA
 import CM.Spec.Tokenizer
 /-
 C17 — tag filtering only escapes `<`; no filtered element can be opened.
@@ -67,6 +68,29 @@ theorem nameClosed_of_list (L : List Bytes) (h : L.all (fun n => n.all nameChar)
   Proofs.nameClosed_of_list L h
 
 /-! ### The whole rendered page -/
+
+/-- (a) for the whole page: rendering with a predicate differs from rendering without one only by `<` replaced with
+    `&lt;` — for EVERY tree, source, SoftBreakBehavior, IgnoreRaw, reference map, entity decoder and predicate. -/
+theorem render_only_lt (cx : RCtx) (p : Bytes → Bool) (t : Tree) :
+    OnlyLt (appendBlock { cx with filter := none } [] t) (appendBlock { cx with filter := some p } [] t) :=
+  Proofs.render_only_lt cx p t
+
+/-- (a) a predicate that rejects nothing changes nothing, for the whole page. -/
+theorem render_filter_none_id (cx : RCtx) (p : Bytes → Bool) (hp : ∀ n, p n = false) (t : Tree) :
+    appendBlock { cx with filter := some p } [] t = appendBlock { cx with filter := none } [] t :=
+  Proofs.render_filter_none_id cx p hp t
+
+/-- (a) for `Render` of a list of root blocks. -/
+theorem renderAll_only_lt (mk : Bytes → RCtx) (p : Bytes → Bool) (blocks : List (Bytes × Tree)) :
+    OnlyLt (renderAll (fun s => { mk s with filter := none }) blocks 0)
+           (renderAll (fun s => { mk s with filter := some p }) blocks 0) :=
+  Proofs.renderAll_only_lt mk p blocks
+
+theorem renderAll_filter_none_id (mk : Bytes → RCtx) (p : Bytes → Bool) (hp : ∀ n, p n = false)
+    (blocks : List (Bytes × Tree)) :
+    renderAll (fun s => { mk s with filter := some p }) blocks 0
+      = renderAll (fun s => { mk s with filter := none }) blocks 0 :=
+  Proofs.renderAll_filter_none_id mk p hp blocks
 
 /-- (b) for everything `AppendBlock` writes with `FilterTag = p`: for EVERY tree, source, SoftBreakBehavior, IgnoreRaw,
     reference map and entity decoder. The renderer's own tags go through the predicate, text is escaped, raw HTML goes
